@@ -87,7 +87,7 @@ def required(tier):
             "subproc_items": 300 * k, "subproc_prefixed_absent": 200 * k, "subproc_app_modes": 4,
             "cross_cases": 4000 * k, "cross_decisive": 1500 * k, "cross_pairs": 5, "cross_ops": 21,
             "evolve_scenarios": 40 * (1 if tier == "quick" else 6), "evolve_op_kinds": 15,
-            "lazy_triggers": 20, "reloads_with_units_new_to_that_registry": 60, "app_registry_swaps": 2}
+            "lazy_triggers": 20, "evolve_copies_taken_inside_contexts": 4, "reloads_with_units_new_to_that_registry": 60, "app_registry_swaps": 2}
 
 
 def shards(tier, seed):
@@ -1411,6 +1411,28 @@ def run_evolve(spec, rec, rng, pools, pint, pintload, CH):
                     pre, post, mism, changed = p2, q2, m2, True
                     break
         report(pre, post, mism, "random-history-shrunk")
+    # (C) the copy is taken WHILE contexts are enabled (one that redefines units, or a rule context): both
+    # sides leave the contexts afterwards and then evolve separately
+    if spec["part"] == 0:
+        redefctx = {"define": "@context c18redef\n    fathom = 2 * meter\n    [length] -> [time]: value / (5 m/s)\n@end",
+                    "kind": "define_context", "contexts": ["c18redef"], "watch": ["fathom"]}
+        for j, names in enumerate((["c18redef"], ["sp"], ["sp", "c18redef"], ["c18redef", "Gaussian"])):
+            k += 1
+            ops_a, ops_b, ops_c = evolve_ops(rng, k), evolve_ops(rng, k + 500), evolve_ops(rng, k + 700)
+            pre = [dict(redefctx), {"call": "enable_contexts", "names": names, "kind": "enable_context"}]
+            leave = {"call": "disable_contexts", "kind": "disable_context"}
+            redef = {"define": "furlong = 100 * meter", "kind": "redefine_unit", "watch": ["furlong"]}
+            post = [("source", dict(leave)), ("copy", dict(leave)), ("copy", ops_a["define_unit"]),
+                    ("source", ops_b["define_unit_compound"]), ("copy" if j % 2 else "source", redef),
+                    ("copy", ops_c["define_prefix"])]
+            mism = [x for x in run_history(pintload, pint, CH, pre, post) if fam_of(x[1]) not in skip_static]
+            rec.count("evolve_scenarios")
+            rec.count("evolve_copies_taken_inside_contexts")
+            rec.case(("evolve-inside-context", tuple(names)))
+            if mism:
+                report(pre, post, mism, "copy-taken-inside-context")
+            else:
+                rec.count("evolve_scenarios_clean")
 
 
 # ---------------------------------------------------------------------------
